@@ -806,7 +806,7 @@ theorem assign_sim (S : Sem V) (fuel : Nat) (hConst : ∀ l, ∃ c, constOf S l 
     ∃ env', evalNodes S fuel env ns = some env' ∧ StoreRel S (ρ.set x pv) L' env' s'.castable
       ∧ Ext env env' s s' ∧ CastSub s' ∧ VisOK s'.used L' ∧ NoAttrBind L' ∧ Mono s s' := by
   have hfr := convStmt_fresh L _ lo h
-  have hsc := convStmt_scope L _ lo hL h
+  have hsc := convStmt_scope L _ lo hL (fun x hx => hx) h
   unfold convStmt at h
   mbind h with p s1 h1
   obtain ⟨t, ns1⟩ := p
@@ -826,6 +826,121 @@ theorem assign_sim (S : Sem V) (fuel : Nat) (hConst : ∀ l, ∃ c, constOf S l 
   · simp only [hyx, if_false] at hy
     obtain ⟨n, hl, hr⟩ := hR y pv' hy
     exact ⟨n, by rw [lookup_bindVar_ne hyx]; exact hl, hr.ext (hL.lookup hl) x1⟩
+
+theorem storeRel_bind {S : Sem V} {ρ : Store V} {L : Locals} {env : Env V} {cast : List Name}
+    (hR : StoreRel S ρ L env cast) {x t : Name} {pv : PV V} (hr : RelV S env cast t pv) :
+    StoreRel S (ρ.set x pv) (bindVar L x (.val t)) env cast := by
+  intro y pv' hy
+  unfold Store.set at hy
+  by_cases hyx : y = x
+  · subst hyx
+    simp only [if_true] at hy
+    cases hy
+    exact ⟨t, lookup_bindVar_same _ _ _, hr⟩
+  · simp only [hyx, if_false] at hy
+    obtain ⟨n, hl, hr'⟩ := hR y pv' hy
+    exact ⟨n, by rw [lookup_bindVar_ne hyx]; exact hl, hr'⟩
+
+theorem storeRel_bindVals {S : Sem V} {env : Env V} {cast : List Name} :
+    ∀ {ts : List Name} {pvs : List (PV V)}, All2 (RelV S env cast) ts pvs → ∀ (xs : List Name) {ρ : Store V}
+      {L : Locals}, StoreRel S ρ L env cast → StoreRel S (ρ.setMany xs pvs) (bindVals L xs ts) env cast := by
+  intro ts pvs h
+  induction h with
+  | nil => intro xs ρ L hR; cases xs <;> exact hR
+  | cons t pv ts' pvs' hr _ ih =>
+    intro xs ρ L hR
+    cases xs with
+    | nil => exact hR
+    | cons x xs => exact ih xs (storeRel_bind hR hr)
+
+theorem NoAttrBind.bindVals {L : Locals} (h : NoAttrBind L) : ∀ (xs ns : List Name),
+    NoAttrBind (OV.C01.bindVals L xs ns) := by
+  intro xs
+  induction xs generalizing L with
+  | nil => intro ns; cases ns <;> exact h
+  | cons x xs ih =>
+    intro ns
+    cases ns with
+    | nil => exact h
+    | cons n ns => exact ih (h.bindVal x n) ns
+
+theorem all2_length {α β : Type} {R : α → β → Prop} {as : List α} {bs : List β} (h : All2 R as bs) :
+    as.length = bs.length := by
+  induction h with
+  | nil => rfl
+  | cons _ _ _ _ _ _ ih => simp [ih]
+
+theorem convParExprs_sim (S : Sem V) (fuel : Nat) (hConst : ∀ l, ∃ c, constOf S l = some c) (ρ : Store V)
+    (L : Locals) (hA : NoAttrBind L) : ∀ (xs : List Name) (es : List Expr) {env : Env V} {s s' : St}
+    {ts : List Name} {ns : List Node} {pvs : List (PV V)}, xs.length = es.length →
+    VisOK s.used L → StoreRel S ρ L env s.castable → CastSub s →
+    evalExprs S ρ es = some pvs → convParExprs L xs es s = .ok ((ts, ns), s') →
+    ∃ env', evalNodes S fuel env ns = some env' ∧ All2 (RelV S env' s'.castable) ts pvs ∧ Ext env env' s s'
+      ∧ CastSub s' := by
+  intro xs
+  induction xs with
+  | nil =>
+    intro es env s s' ts ns pvs hlen hL hR hs he h
+    cases es with
+    | cons _ _ => simp at hlen
+    | nil =>
+      unfold evalExprs at he
+      cases he
+      unfold convParExprs at h
+      obtain ⟨e1, e2⟩ := pure_ok h
+      cases e1; subst e2
+      exact ⟨env, evalNodes_nil _ _ _, All2.nil, Ext.refl _ _, hs⟩
+  | cons x xs ih =>
+    intro es env s s' ts ns pvs hlen hL hR hs he h
+    cases es with
+    | nil => simp at hlen
+    | cons e es =>
+      unfold evalExprs at he
+      cases hea : evalExpr S ρ e with
+      | none => simp [hea] at he
+      | some pa =>
+        cases hes : evalExprs S ρ es with
+        | none => simp [hea, hes] at he
+        | some prest =>
+          simp only [hea, hes] at he
+          cases he
+          unfold convParExprs at h
+          mbind h with p s1 h1
+          obtain ⟨t, ns1⟩ := p
+          try dsimp only at h
+          mbind h with p s2 h2
+          obtain ⟨ts', ns2⟩ := p
+          try dsimp only at h
+          obtain ⟨q1, q2⟩ := pure_ok h
+          cases q1; subst q2
+          obtain ⟨env1, ev1, r1, x1, c1⟩ := convExpr_sim S fuel hConst ρ L hA e _ hL hR hs hea h1
+          have m1 := (convExpr_fresh L e _ h1).1
+          have ht1 := convExpr_result_used hL h1
+          obtain ⟨env2, ev2, r2, x2, c2⟩ := ih es (by simpa using hlen) (hL.mono m1) (hR.ext hL x1) c1 hes h2
+          exact ⟨env2, evalNodes_seq ev1 ev2, All2.cons _ _ _ _ (r1.ext ht1 x2) r2, x1.trans m1 x2, c2⟩
+
+theorem par_sim (S : Sem V) (fuel : Nat) (hConst : ∀ l, ∃ c, constOf S l = some c) {ρ : Store V}
+    {L : Locals} (hA : NoAttrBind L) {xs : List Name} {es : List Expr} {lo : VSet} {env : Env V} {s s' : St}
+    {L' : Locals} {ns : List Node} {pvs : List (PV V)}
+    (hL : VisOK s.used L) (hR : StoreRel S ρ L env s.castable) (hs : CastSub s)
+    (he : evalExprs S ρ es = some pvs) (h : convStmt L (.par xs es) lo s = .ok ((L', ns), s')) :
+    ∃ env', evalNodes S fuel env ns = some env' ∧ StoreRel S (ρ.setMany xs pvs) L' env' s'.castable
+      ∧ Ext env env' s s' ∧ CastSub s' ∧ VisOK s'.used L' ∧ NoAttrBind L' ∧ Mono s s' := by
+  have hfr := convStmt_fresh L _ lo h
+  have hsc := convStmt_scope L _ lo hL (fun x hx => hx) h
+  unfold convStmt at h
+  by_cases hl : xs.length ≠ es.length
+  · rw [if_pos hl] at h; exact (failM_ok h).elim
+  · rw [if_neg hl] at h
+    unfold convPar at h
+    mbind h with p s1 h1
+    obtain ⟨ts, ns1⟩ := p
+    try dsimp only at h
+    obtain ⟨q1, q2⟩ := pure_ok h
+    cases q1; subst q2
+    obtain ⟨env1, ev1, r1, x1, c1⟩ := convParExprs_sim S fuel hConst ρ L hA xs es (by simpa using hl) hL hR hs he h1
+    exact ⟨env1, ev1, storeRel_bindVals r1 xs (hR.ext hL x1), x1, c1,
+      hsc.2.mono (fun y hy => after_in_used hfr hy), hA.bindVals _ _, hfr.1⟩
 
 theorem emitCopy_sim (S : Sem V) (fuel : Nat) (hId : ∀ v, S.op "" "Identity" [some v] [] = some [v])
     {env : Env V} {o sug x : Name} {ns : List Node} {s s' : St} {v : V}
@@ -869,7 +984,7 @@ theorem convRetOne_sim (S : Sem V) (fuel : Nat) (hConst : ∀ l, ∃ c, constOf 
   -- optional copy of a graph input
   have step2 : ∃ env2, evalNodes S fuel env1 ns2 = some env2 ∧ env2 rv2 = some v ∧ Ext env1 env2 s1 s2
       ∧ s2.castable = s1.castable ∧ rv2 ∈ s2.used ∧ Mono s1 s2 := by
-    by_cases hi : returnsInput L inputs rv = true
+    by_cases hi : returnsInput inputs rv = true
     · rw [if_pos hi] at h2
       obtain ⟨a, b, c, d⟩ := emitCopy_sim S fuel hId hval h2
       have hc2 : s2.castable = s1.castable := by
@@ -1102,7 +1217,29 @@ theorem convTop_sl_sim (S : Sem V) (fuel : Nat) (hConst : ∀ l, ∃ c, constOf 
           obtain ⟨q1, q2⟩ := pure_ok h2
           cases q1
           exact ⟨env1, by simpa using ev1, by simpa using hm1⟩
-    | par xs es => simp [straightLine] at hsl
+    | par xs es =>
+      simp only [straightLine] at hsl
+      unfold evalBlock at he
+      simp only [evalStmt] at he
+      cases hee : evalExprs S ρ es with
+      | none => simp [hee] at he
+      | some pvs' =>
+        simp only [hee] at he
+        by_cases hlen : pvs'.length = xs.length
+        · simp only [hlen, if_true] at he
+          rw [convTop_cons_nonret inputs rc L _ ss [] (fun es b hc => by cases hc)] at h
+          mbind h with p s1 h1
+          obtain ⟨L1, ns1⟩ := p
+          try dsimp only at h
+          mbind h with p s2 h2
+          obtain ⟨ns2, outs2⟩ := p
+          try dsimp only at h
+          obtain ⟨q1, q2⟩ := pure_ok h
+          cases q1
+          obtain ⟨env1, ev1, hR1, x1, c1, hL1, hA1, m1⟩ := par_sim S fuel hConst hA hL hR hs hee h1
+          obtain ⟨env2, ev2, hm2⟩ := ih L1 hsl hA1 hL1 hR1 c1 he hv h2
+          exact ⟨env2, evalNodes_seq ev1 ev2, hm2⟩
+        · simp [hlen] at he
     | tuple xs e => simp [straightLine] at hsl
     | badAssign xs e => simp [straightLine] at hsl
     | ite c t e => simp [straightLine] at hsl
